@@ -964,6 +964,14 @@ class Parser:
             op_token = self._advance()
             op = op_token.value
             argument = self._parse_unary_expression()
+            if self._check(TokenType.STARSTAR):
+                # -2 ** 2 is neither (-2) ** 2 nor -(2 ** 2): the grammar has no
+                # unary operator directly in front of **
+                raise self._error(
+                    "Unary operator used immediately before exponentiation "
+                    "expression. Parenthesis must be used to disambiguate "
+                    "operator precedence"
+                )
             return UnaryExpression(op, argument)
 
         # Prefix increment/decrement
